@@ -1521,7 +1521,7 @@ def section_list_data(ck, rng):
                     els = list(dl.list)
                     if not els:
                         continue
-                    feat = "%s/%s/%s" % (kind, first_axis, layout)
+                    feat = "%s/%s" % (kind, first_axis)          # the memory layout is in the replay
                     esnaps = [snapshot(e) for e in els]
                     edata = [np.array(e.get_fdata(), copy=True) for e in els]
                     out_dim = els[0].ndim + 1
@@ -1590,7 +1590,7 @@ def section_list_data(ck, rng):
                             cur = [np.array(e_.get_fdata(), copy=True) for e_ in dl.list]
                             r2 = np.asarray(dl.get_list_data(axis=0))
                             if r2.shape != (len(cur),) + cur[0].shape or not all(np.array_equal(r2[k], cur[k]) for k in range(len(cur))):
-                                ck.fail("get_list_data/value-at-wrong-list-position/same-object-after-setitem:%s/%s/%s" % (rnd, first_axis, layout),
+                                ck.fail("get_list_data/value-at-wrong-list-position/same-object-after-setitem:%s/%s" % (rnd, first_axis),
                                         "get_list_data(axis=0) after exchanging the first and last entry of the list (%s): entry k is not image k" % rnd,
                                         dict(rep, sequence=rnd, result=r2.tolist(), list_data_now=[d.tolist() for d in cur]))
         if snapshot(img) != snap:
